@@ -936,12 +936,9 @@ class WalkMapper(RecursiveMapper):
         if not self.visit(expr, *args, **kwargs):
             return
 
-        if expr.start is not None:
-            self.rec(expr.start, *args, **kwargs)
-        if expr.stop is not None:
-            self.rec(expr.stop, *args, **kwargs)
-        if expr.step is not None:
-            self.rec(expr.step, *args, **kwargs)
+        for child in expr.children:
+            if child is not None:
+                self.rec(child, *args, **kwargs)
 
         self.post_visit(expr, *args, **kwargs)
 
